@@ -152,6 +152,14 @@ def gen_case(rng, i):
         ctx = qast.Ctx(a_names, b_names)
         case['query_text'] = qast.render(q, ctx, 'py')
         case['multiline'] = multiline
+        case['miscase'] = None
+        if has_header and i % 13 == 5:
+            # a column referred to in attribute notation with another letter case than the header has: no front-end knows such a column
+            for nm in a_names:
+                if 'a.' + nm in case['query_text'] and nm.upper() != nm:
+                    case['miscase'] = ['a.' + nm, 'a.' + nm.upper()]
+                    case['query_text'] = case['query_text'].replace('a.' + nm, 'a.' + nm.upper())
+                    break
         case['ragged'] = ragged and any(len(r) != len(t[0]) for t in (A, B or []) for r in t)
         return case
     return None
@@ -275,6 +283,63 @@ def run_shard(spec, res):
                     err2 = util.error_class(e)
                 res.evaluations += 1
                 res.count('failing_reference_cases')
+                fails = {'query+user-classes': err2 is not None}
+                cdf = os.path.join(d, 'f%d' % n)
+                os.mkdir(cdf)
+                fan, fbn, fA, fB = case['a_names'], case['b_names'], case['A'], case['B']
+                fpol = 'quoted_rfc' if case.get('multiline') else 'quoted'
+                with open(os.path.join(cdf, 'in.csv'), 'w', encoding='utf-8', newline='') as f:
+                    f.write(csv_text(fA, fan, ',', fpol))
+                fq = copy.deepcopy(case['q'])
+                if fB is not None:
+                    with open(os.path.join(cdf, 'jn.csv'), 'w', encoding='utf-8', newline='') as f:
+                        f.write(csv_text(fB, fbn, ',', fpol))
+                    fq['join']['table'] = 'jn.csv'
+                fqtext = qast.render(fq, qast.Ctx(fan, fbn), 'py')
+                if case.get('miscase'):
+                    fqtext = fqtext.replace(case['miscase'][0], case['miscase'][1])
+                try:
+                    ns.rbql.query_csv(fqtext, os.path.join(cdf, 'in.csv'), ',', fpol, os.path.join(cdf, 'out.csv'), ',', fpol, 'utf-8', [], fan is not None)
+                    fails['query_csv'] = False
+                except Exception:
+                    fails['query_csv'] = True
+                if n % 2 == 0:
+                    p = run_cli(['--delim', ',', '--policy', fpol, '--query', fqtext, '--input', os.path.join(cdf, 'in.csv'), '--output', os.path.join(cdf, 'out2.csv')] + (['--with-headers'] if fan is not None else []), cdf)
+                    res.count('cli_runs')
+                    fails['cli-file'] = p.returncode != 0 and b'Error [' in p.stderr
+                rect = not case.get('ragged') and fA
+                if rect:
+                    try:
+                        ns.rbql.query_pandas_dataframe(case['query_text'], pd.DataFrame(fA, columns=fan) if fan is not None else pd.DataFrame(fA), [], None if fB is None else (pd.DataFrame(fB, columns=fbn) if fbn is not None else pd.DataFrame(fB)))
+                        fails['pandas'] = False
+                    except Exception:
+                        fails['pandas'] = True
+                if rect and fan is not None and len(set(fan)) == len(fan) and (fbn is None or len(set(fbn)) == len(fbn)):
+                    fdb = os.path.join(cdf, 'f.sqlite')
+                    conn = sqlite3.connect(fdb)
+                    conn.execute('CREATE TABLE t (%s)' % ', '.join('%s TEXT' % x for x in fan))
+                    conn.executemany('INSERT INTO t VALUES (%s)' % ','.join('?' * len(fan)), fA)
+                    if fB is not None:
+                        conn.execute('CREATE TABLE b (%s)' % ', '.join('%s TEXT' % x for x in fbn))
+                        conn.executemany('INSERT INTO b VALUES (%s)' % ','.join('?' * len(fbn)), fB)
+                    conn.commit()
+                    try:
+                        ns.sqlite.query_sqlite_to_csv(case['query_text'], conn, 't', os.path.join(cdf, 'out3.csv'), ',', 'quoted_rfc', 'utf-8', [])
+                        fails['sqlite'] = False
+                    except Exception:
+                        fails['sqlite'] = True
+                    conn.close()
+                    if n % 2 == 1:
+                        p = run_cli(['sqlite', fdb, '--input', 't', '--query', case['query_text'], '--output', os.path.join(cdf, 'out4.csv')], cdf)
+                        res.count('cli_runs')
+                        fails['cli-sqlite'] = p.returncode != 0 and b'Error [' in p.stderr
+                shutil.rmtree(cdf, ignore_errors=True)
+                for fe, failed in sorted(fails.items()):
+                    res.count('failing_reference_front_end:' + fe)
+                    if not failed and fe != 'query+user-classes':
+                        res.violation('py:front-end-succeeds-where-reference-fails:' + fe, '[%s] %s succeeds, but query_table raises %s: %s (A=%r B=%r names=%r)' % (fe, case['query_text'], ref['error'], (ref['error_msg'] or '')[:120], fA, fB, fan), dict(case, front_end=fe))
+                if case.get('miscase'):
+                    res.count('miscased_column_reference_cases')
                 if err2 is None:
                     res.violation('py:front-end-error:query_table', '[query_table] %s raised %s: %s ; rbql.query with user-written iterator / writer gives %r (A=%r B=%r names=%r)' % (case['query_text'], ref['error'], (ref['error_msg'] or '')[:120], norm_rows(w.rows)[:6], case['A'], case['B'], case['a_names']), dict(case, front_end='query_table'))
             if not acceptable(ref, bool(case.get('multiline'))):
@@ -701,8 +766,8 @@ def plan(tier, seed):
 def summarize(tier, seed, m):
     fe = {k[10:]: v for k, v in m['counters'].items() if k.startswith('front_end:')}
     return {
-        'rule': 'rectangular string tables (0-5 rows, 1-4 columns, cells with spaces, quotes, commas, non-ASCII, empty; one case in six with line breaks inside cells, run through the quoted_rfc dialect; duplicated column names in 15% of the headed cases; one case in eleven with records shorter or longer than the first, run through the front-ends that can hold such a table; no tabs) with and without header; type-agnostic structured queries (select / where / order / distinct / distinct count / top / inner join / update / except / aggregates) rotating systematically over clause combinations; each executed through query_table (reference) and through 8 entry points: rbql.query with user-written iterator / writer / registry classes, query_csv, CLI file -> file and stdin -> stdout in the three output formats, query_pandas_dataframe, query_sqlite_to_csv, CLI sqlite; plus failing queries (parsing, execution, IO, syntax) x {file, stdout, sqlite} for exit status / Error [type] on stderr, and warning routing; plus an options leg over the parameters of the CSV entry points, each compared with query_table over the same data: comment lines (8 prefixes, before the header, between records, at the end, in the join file too) with comment_prefix / --comment-prefix, user variables and functions from an init source (user_init_code, --init-source-file, ~/.rbql_init_source.py under a private HOME; CLI sqlite too), latin-1 files with cells over the whole 0x80-0xff range and --encoding latin-1, and the policy the command line picks when --policy is left out (quoted for , and ; / whitespace for a space / simple otherwise) with a cell whose CSV form depends on the policy. distinct_nontrivial = distinct (query, tables) with a non-empty result + failing scenarios.',
-        'required': ['cases', 'multiline_cases', 'ragged_cases', 'front_end:query+user-classes', 'front_end:query_csv', 'front_end:pandas', 'front_end:sqlite', 'front_end:cli-sqlite', 'front_end:cli-file-tsv', 'front_end:cli-file-csv', 'front_end:cli-file-input', 'front_end:cli-stdin-stdout-csv', 'cli_failing_runs', 'cli_failing_runs_empty_message', 'cli_warning_runs', 'option_cases:comment', 'option_cases:init', 'option_cases:latin1', 'option_cases:defpolicy', 'front_end:cli-file+comment', 'front_end:cli-stdin+init', 'front_end:cli-sqlite+init', 'front_end:query_csv+latin1', 'front_end:cli-file+defpolicy'],
+        'rule': 'rectangular string tables (0-5 rows, 1-4 columns, cells with spaces, quotes, commas, non-ASCII, empty; one case in six with line breaks inside cells, run through the quoted_rfc dialect; duplicated column names in 15% of the headed cases; one case in eleven with records shorter or longer than the first, run through the front-ends that can hold such a table; no tabs) with and without header; type-agnostic structured queries (select / where / order / distinct / distinct count / top / inner join / update / except / aggregates) rotating systematically over clause combinations; a case whose reference run fails (runtime errors, and a column referred to as a.NAME where the header says name - one headed case in thirteen) must fail through every entry point as well; each executed through query_table (reference) and through 8 entry points: rbql.query with user-written iterator / writer / registry classes, query_csv, CLI file -> file and stdin -> stdout in the three output formats, query_pandas_dataframe, query_sqlite_to_csv, CLI sqlite; plus failing queries (parsing, execution, IO, syntax) x {file, stdout, sqlite} for exit status / Error [type] on stderr, and warning routing; plus an options leg over the parameters of the CSV entry points, each compared with query_table over the same data: comment lines (8 prefixes, before the header, between records, at the end, in the join file too) with comment_prefix / --comment-prefix, user variables and functions from an init source (user_init_code, --init-source-file, ~/.rbql_init_source.py under a private HOME; CLI sqlite too), latin-1 files with cells over the whole 0x80-0xff range and --encoding latin-1, and the policy the command line picks when --policy is left out (quoted for , and ; / whitespace for a space / simple otherwise) with a cell whose CSV form depends on the policy. distinct_nontrivial = distinct (query, tables) with a non-empty result + failing scenarios.',
+        'required': ['cases', 'multiline_cases', 'ragged_cases', 'failing_reference_cases', 'miscased_column_reference_cases', 'failing_reference_front_end:sqlite', 'failing_reference_front_end:pandas', 'failing_reference_front_end:query_csv', 'front_end:query+user-classes', 'front_end:query_csv', 'front_end:pandas', 'front_end:sqlite', 'front_end:cli-sqlite', 'front_end:cli-file-tsv', 'front_end:cli-file-csv', 'front_end:cli-file-input', 'front_end:cli-stdin-stdout-csv', 'cli_failing_runs', 'cli_failing_runs_empty_message', 'cli_warning_runs', 'option_cases:comment', 'option_cases:init', 'option_cases:latin1', 'option_cases:defpolicy', 'front_end:cli-file+comment', 'front_end:cli-stdin+init', 'front_end:cli-sqlite+init', 'front_end:query_csv+latin1', 'front_end:cli-file+defpolicy'],
         'extra': {'front_end_comparisons': fe},
         'assumptions': ['query_table is the reference (pinned by C01-C05, C07)', 'types are not compared across back ends (CSV and pandas stringify): cells are compared after the stringification every CSV sink applies', 'scratch files are named in.csv / jn.csv / in_<n>.csv / jn_<n>.csv in a directory c<n> per case: a path containing an a./b. token under a header is the C08 known finding, not a front-end difference'],
     }
